@@ -860,7 +860,11 @@ pub fn gen_c16(seed: u64, thorough: bool) {
         random_condition(&mut rng, &mut e, true);
         let nlab = rng.range(1, 3);
         let lines = src.labels(&mut rng, nlab, false);
-        let v = if i % 6 == 0 { *rng.pick(&[6.0205999132796239, -6.0205999132796239, 60.0, -60.0, 20.0]) } else { rng.uniform(-60.0, 60.0) };
+        // value classes: round gains, the range ends, and volumes a hair away from 0 dB (gain within 1e-3 … 1e-9 of 1: the gain is
+        // v dB however small v is — seeded change C16j: a linear gain within 1e-3 of 1 replaced by exactly 1)
+        let v = if i % 6 == 0 { *rng.pick(&[6.0205999132796239, -6.0205999132796239, 60.0, -60.0, 20.0]) }
+                else if i % 6 == 3 { *rng.pick(&[0.005, -0.008, 1e-4, -1e-6, 0.0086, -0.0009]) }
+                else { rng.uniform(-60.0, 60.0) };
         // the gain must reach every public route to the samples (seeded change C16f: applied by `synthesize` only):
         // route 0 = Engine::synthesize, 1 = generator().generate_all(), 2 = generator() + generate_step loop
         let route = i % 3;
